@@ -349,7 +349,40 @@ def units_rule(repo, res, rule="UNITS"):
         res.check(ok, rule, f"{rule}:HumanSpan::{name}:start", "line and start column come from the first (earlier) position", fn.loc())
 
 
+def ends_rule(repo, res, rule="ENDS"):
+    """`Adjacent literals` points at the END of the left item and the START of the right item: expr_get_tail descends into the
+    LAST child of a sequence, expr_get_head into the FIRST; do_check_subword_spaces hands the left neighbour to the former and the
+    right neighbour to the latter."""
+    want = {"check::expr_get_head": "first", "check::expr_get_tail": "last"}
+    for q, m in want.items():
+        fn = repo.fn(q)
+        if fn is None:
+            res.undecided(rule, f"{rule}:{q}", "function not found")
+            continue
+        found = None
+        for a in A.walk(fn.body):
+            if a["k"] == "Arm" and any(v[0].endswith("::Sequence") for v in A.pat_variants(a["pat"])):
+                ms = [x["method"] for x in A.walk(a["body"]) if x["k"] == "MethodCall" and x["method"] in ("first", "last", "next", "next_back", "get", "nth")]
+                idx = [x for x in A.walk(a["body"]) if x["k"] == "Index"]
+                found = (ms, len(idx))
+        ok = found is not None and found[0] == [m] and found[1] == 0
+        res.check(ok, rule, f"{rule}:{q}:Sequence", f"the Sequence arm takes children.{found[0] if found else '?'}()" + ("" if ok else f": must be children.{m}() -- the reported span would be the other end of the item"), fn.loc())
+    fn = repo.fn("check::do_check_subword_spaces")
+    if fn is None:
+        res.undecided(rule, f"{rule}:check::do_check_subword_spaces", "function not found")
+        return
+    envs = A.collect_envs(fn)
+    sites = list(P.ctor_sites(fn.body, "Error::SubwordSpaces"))
+    res.check(len(sites) >= 1, rule, f"{rule}:check::do_check_subword_spaces:sites", f"{len(sites)} SubwordSpaces construction sites", fn.loc())
+    for i, s in enumerate(sites):
+        a0 = A.show(A.resolve(P.ctor_field(s, "0"), envs.get(id(s))))
+        a1 = A.show(A.resolve(P.ctor_field(s, "1"), envs.get(id(s))))
+        ok = "expr_get_tail" in a0 and "expr_get_head" not in a0 and "expr_get_head" in a1 and "expr_get_tail" not in a1
+        res.check(ok, rule, f"{rule}:check::do_check_subword_spaces:SubwordSpaces#{i + 1}", f"first <= {a0[:80]} ; second <= {a1[:80]}" + ("" if ok else ": first must be the tail of the left neighbour, second the head of the right one"), f"{fn.file}:{s['l']}")
+
+
 def run(repo, res, tier):
+    ends_rule(repo, res)
     mir = M.get_mir(tier)
     res.engines["M"] = {"functions": len(mir.fns)}
     spansrc(repo, mir, res)
